@@ -56,6 +56,7 @@ enum Expected {
 //------------ Sequential reference model ----------------------------------------
 
 /// What the source told the server for one well-formed query.
+#[derive(Clone)]
 enum Ans {
     /// `ready()` returned false: the query is answered with one Error PDU.
     NotReady,
@@ -435,7 +436,7 @@ impl C08 {
                 if cfg.dynamic && ctx.chance(1, 3) { 1 } else { 0 },
             ],
         };
-        let mut effective_notifies = 0u64;
+        let mut last_notify_mark: Option<usize> = None;
         let mut sender_gone = false;
         let mut closed = false;
 
@@ -448,7 +449,7 @@ impl C08 {
             let slot = (i / 234) % 3;
             let cut = cut.min(script.len());
             if slot == 0 {
-                effective_notifies += 1;
+                last_notify_mark = Some(s2c.lock().unwrap().written.len());
                 notify.notify();
                 ctx.ev(3, 0, || "notify (before first bytes)".into());
                 counters.bump("fault_notify_while_idle");
@@ -463,7 +464,7 @@ impl C08 {
             }
             if slot == 1 {
                 let consumed = c2s.lock().unwrap().n_read as usize;
-                effective_notifies += 1;
+                last_notify_mark = Some(s2c.lock().unwrap().written.len());
                 notify.notify();
                 ctx.ev(3, consumed as u64, || format!("notify (server has consumed {} bytes of the query)", consumed));
                 if consumed > 0 && consumed < 8 {
@@ -521,7 +522,7 @@ impl C08 {
                         let blocked_write = s2c.lock().unwrap().writer_waker.is_some();
                         notify.notify();
                         if !closed {
-                            effective_notifies += 1;
+                            last_notify_mark = Some(s2c.lock().unwrap().written.len());
                         }
                         // where does the notify land relative to the byte stream?
                         let off = unit_offset(&units, consumed);
@@ -556,7 +557,7 @@ impl C08 {
                         }
                         if ctx.chance(3, 4) && !sender_gone {
                             if !closed {
-                                effective_notifies += 1;
+                                last_notify_mark = Some(s2c.lock().unwrap().written.len());
                             }
                             notify.notify();
                             ctx.ev(3, 0, || "notify (after update)".into());
@@ -607,6 +608,16 @@ impl C08 {
                         // those the server has not read yet or is still busy with.
                         if !closed {
                             closed = true;
+                            // a notification that the server has not acted on
+                            // yet may legitimately lose the race against this EOF
+                            if let Some(mark) = last_notify_mark {
+                                let written = s2c.lock().unwrap().written.clone();
+                                let (ps, _) = wire::parse_stream(&written);
+                                if !ps.iter().any(|(off, p)| *off >= mark && matches!(p, WirePdu::SerialNotify { .. })) {
+                                    last_notify_mark = None;
+                                    counters.bump("probe_notify_overtaken_by_client_eof");
+                                }
+                            }
                             script.truncate(sent);
                             let unread = c2s.lock().unwrap().inbox.len();
                             let blocked = s2c.lock().unwrap().writer_waker.is_some();
@@ -644,6 +655,7 @@ impl C08 {
                 quiet += 1;
             } else {
                 quiet = 0;
+                rounds = 0; // the cap is on rounds without any progress
             }
             if quiet >= 3 {
                 if cfg.eof_at_end && !closed {
@@ -705,13 +717,16 @@ impl C08 {
             .filter_map(|c| if let CallKind::Notify(s) = c.kind { Some(s) } else { None })
             .collect();
 
-        let m = model(&script, &answers)?;
         let output = s2c.lock().unwrap().written.clone();
         let (pdus, used) = wire::parse_stream(&output);
         ctx.ev(9, pdus.len() as u64, || {
             format!("server output: {}", pdus.iter().map(|p| wire::describe(&p.1)).collect::<Vec<_>>().join(", "))
         });
         out.sim_ms = 0;
+        let odd_version_notifies = std::cell::Cell::new(0u64);
+        let never_ready_seen = conn_calls.iter().any(|c| matches!(c.kind, CallKind::Ready(false)));
+        let judge = |answers: &[Ans]| -> Result<(ModelOut, usize, u64), Violation> {
+        let m = model(&script, answers)?;
 
         let ctx_key = |default: &str| -> String {
             if partial_header_notifies > 0 { "notify-with-partial-header".to_string() } else { default.to_string() }
@@ -720,11 +735,12 @@ impl C08 {
         // 3. the source is consulted exactly once per well-formed query
         // (once the stream is unframed by an erroneous unit, whatever follows
         // may or may not look like a query to the server: not specified)
-        if answers.len() > m.well_formed && !m.desync {
+        let n_data = answers.iter().filter(|a| matches!(a, Ans::Data(..))).count();
+        if n_data > m.well_formed && !m.desync {
             return Err(Violation::new(
                 "duplicated-query",
                 ctx_key("source-calls"),
-                format!("{} well-formed queries but the source was asked {} times", m.well_formed, answers.len()),
+                format!("{} well-formed queries but the source was asked for data {} times", m.well_formed, n_data),
             ));
         }
 
@@ -736,7 +752,7 @@ impl C08 {
             if let WirePdu::SerialNotify { session, serial, v: nv } = p {
                 notifies_seen += 1;
                 if *nv != cfg.version && *nv != 0 {
-                    counters.bump("probe_notify_in_unexpected_version");
+                    odd_version_notifies.set(odd_version_notifies.get() + 1);
                 }
                 if within.is_some() {
                     return Err(Violation::new(
@@ -830,7 +846,9 @@ impl C08 {
                 Expected::Error { unsupported_version } => {
                     match p {
                         WirePdu::Error { v, code, .. } => {
-                            if *unsupported_version && (*code != 4 || *v > 2) {
+                            // (while the source is not ready a server may as well answer
+                            // "no data available": the statement only asks for an Error PDU)
+                            if *unsupported_version && (*code != 4 || *v > 2) && !answers.iter().any(|a| matches!(a, Ans::NotReady)) && !never_ready_seen {
                                 return Err(Violation::new(
                                     "wrong-error",
                                     "unsupported-version",
@@ -887,15 +905,57 @@ impl C08 {
             ));
         }
         // Update notifications appear as Serial Notify PDUs: when notify() was
-        // called on a live, framed connection, at least one must have been sent
-        // by the time the system is quiescent (bursts may be coalesced).
-        if effective_notifies > 0 && notifies_seen == 0 && !m.ends && !m.desync && !m.stuck_in_query {
-            return Err(Violation::new(
-                "lost-notify",
-                "",
-                format!("notify() was called {} times on a live connection but no Serial Notify was ever sent", effective_notifies),
-            ));
+        // called on a live, framed connection, a Serial Notify must have been
+        // written after the last such call by the time the system is quiescent
+        // (bursts may be coalesced; a call overtaken by the client's EOF before
+        // the server ran again was forgiven when the EOF was issued).
+        if let Some(mark) = last_notify_mark {
+            let sent_after = pdus.iter().any(|(off, p)| *off >= mark && matches!(p, WirePdu::SerialNotify { .. }));
+            if !sent_after && !m.ends && !m.desync && !m.stuck_in_query {
+                return Err(Violation::new(
+                    "lost-notify",
+                    "",
+                    format!(
+                        "notify() was called on a live connection when {} output bytes had been written, but no Serial Notify was sent afterwards ({} were sent before)",
+                        mark, notifies_seen
+                    ),
+                ));
+            }
         }
+        Ok((m, idx, notifies_seen))
+        };
+
+        // The source may have said "not ready" for a query; which query a
+        // logged ready() == false belongs to is known by position only if the
+        // server asks exactly once per well-formed query. Try the positional
+        // pairing first, then the pairings with some of those answers left out.
+        let n_not_ready = answers.iter().filter(|a| matches!(a, Ans::NotReady)).count();
+        let mut verdict = judge(&answers);
+        if verdict.is_err() && n_not_ready > 0 {
+            let masks: Vec<u32> = if n_not_ready <= 4 { (1..(1u32 << n_not_ready)).collect() } else { (1..=n_not_ready as u32).map(|k| (1u32 << k) - 1).collect() };
+            for mask in masks {
+                let mut k = 0;
+                let variant: Vec<Ans> = answers
+                    .iter()
+                    .filter(|a| {
+                        if matches!(a, Ans::NotReady) {
+                            let drop_it = mask & (1 << k.min(31)) != 0;
+                            k += 1;
+                            !drop_it
+                        } else {
+                            true
+                        }
+                    })
+                    .cloned()
+                    .collect();
+                if let Ok(v) = judge(&variant) {
+                    verdict = Ok(v);
+                    break;
+                }
+            }
+        }
+        let (m, idx, notifies_seen) = verdict?;
+        counters.add("probe_notify_in_unexpected_version", odd_version_notifies.get());
         counters.add("probe_serial_notifies_seen", notifies_seen);
         counters.add("responses_checked", idx as u64);
         for e in &m.expected {
@@ -996,7 +1056,7 @@ impl Scenario for C08 {
     fn assumptions(&self) -> Vec<&'static str> {
         vec![
             "while the source reports ready() == false a well-formed query gets exactly one Error PDU (the statement does not list this case; this is what the code documents) - toggled in the dynamic class",
-            "notify() on a live, framed connection must lead to at least one Serial Notify by the time the system is quiescent (bursts may be coalesced, so only the first is demanded)",
+            "notify() on a live, framed connection must be followed by a Serial Notify by the time the system is quiescent (bursts may be coalesced: one PDU written after the last call is enough; a call that the client's EOF overtakes before the server runs again is forgiven; a connection parked inside an incomplete query is exempt)",
             "erroneous units that are exactly one 8-byte header long (unknown type, other version, too-new version) may appear anywhere and the queries after them must still be answered; an erroneous unit longer than its header (wrong length, Serial Query with a bad version) leaves the stream unframed, so at most one of those per script, placed last, and nothing is required after its Error PDU",
             "Error PDUs are compared by type and framing only, plus code 4 in a supported version for the unsupported-version case",
             "ASPA withdraw PDUs are compared by customer only",
